@@ -37,7 +37,8 @@ ToNum(v) ==
 \* binary + and * as the operand fixup does them: an error operand is
 \* returned unchanged, the left one first; then non-numeric text is #VALUE!
 Arith(op, a, b) ==
-  IF IsErr(a) THEN a
+  IF a[1] = "U" \/ b[1] = "U" THEN <<"U">>     \* outside the exact fragment
+  ELSE IF IsErr(a) THEN a
   ELSE IF IsErr(b) THEN b
   ELSE LET x == ToNum(a)  y == ToNum(b)
        IN  IF IsErr(x) THEN x
